@@ -21,7 +21,42 @@ def programs(tier):
                          {"cancel": [], "reraise": False, "boom": []}], ["cp"]]
                 progs.append({"objects": {"g": ["gate"]}, "main": main, "tasks": {}, "env": env,
                               "label": f"crossing env={e} sh={sh} inner={inner[0][0]}"})
+    # exception groups (with native and AnyIO cancellation leaves) reaching a cancelled scope
+    for leaves_spec in (["caught", "native"], ["caught", "boom:XG"], ["caught", "native", "boom:XG"],
+                        ["native", "boom:XG"], ["caught"], ["native"]):
+        for e in ("S1", "S2", "S1S2"):
+            env = {"S1": [["set", "g"], ["cancel", "S1"]], "S2": [["set", "g"], ["cancel", "S2"]],
+                   "S1S2": [["set", "g"], ["cancel", "S1"], ["cancel", "S2"]]}[e]
+            for sh in (False, True):
+                inner = [["try", [["wait", "g"]], {"cancel": [["raise_group", leaves_spec]]}]]
+                s2 = ["scope", "S2", {"shield": sh}, inner]
+                s1 = ["scope", "S1", {}, [["cp"], s2, ["cp"]]]
+                main = [["try", [["scope", "S0", {}, [s1, ["cp"]]]],
+                         {"cancel": [], "reraise": False, "boom": [], "group": []}], ["cp"]]
+                progs.append({"objects": {"g": ["gate"]}, "main": main, "tasks": {}, "env": env,
+                              "label": f"group leaves={leaves_spec} env={e} sh={sh}"})
     return progs
+
+
+def _counts(o):
+    """(sorted non-cancellation leaves, #native cancellations, #AnyIO cancellations)."""
+    other, nat, any_ = [], 0, 0
+
+    def rec(x):
+        nonlocal nat, any_
+        if x[0] == "group":
+            for y in x[1]:
+                rec(y)
+        elif x[0] == "cancel":
+            if x[1] == "anyio":
+                any_ += 1
+            else:
+                nat += 1
+        elif x[0] != "ok":
+            other.append(x[0] + ":" + x[1])
+
+    rec(o)
+    return sorted(other), nat, any_
 
 
 def nontrivial(program, ex):
@@ -78,17 +113,18 @@ def check(program, ex):
             continue
         if _has_anyio(B):
             absorb = called and not visible
-            nb = leaves(B)[0]
+            nb, nnat, _ = _counts(B)
             if absorb:
                 if not caught:
                     v.append(f"scope {name}: was cancelled itself and no cancelled encloser is "
                              f"visible, but cancelled_caught is False (exit gave {P})")
-                if not nb and P[0] != "ok":
+                if not nb and not nnat and P[0] != "ok":
                     v.append(f"scope {name}: should have absorbed its own cancellation but "
                              f"propagated {P}")
-                if nb and leaves(P)[0] != nb:
-                    v.append(f"scope {name}: exceptions {nb} must pass through, exit gave {P}")
-                if nb and _has_anyio(P):
+                if (nb or nnat) and _counts(P)[:2] != (nb, nnat):
+                    v.append(f"scope {name}: {nb} and {nnat} native cancellation(s) must pass "
+                             f"through, exit gave {P}")
+                if (nb or nnat) and _has_anyio(P):
                     v.append(f"scope {name}: AnyIO cancellations were not filtered out of {P}")
             else:
                 if caught:
